@@ -64,7 +64,7 @@ struct Sys {
         if(op < OP_SEEK) {
             int a = op;
             uint32_t oldv = VAL[a][I.cur[a]], newv = VAL[a][(I.cur[a] + 1) % 3];
-            char msg[128]; char types[4] = {'s', TYPE[a], TYPE[a], 0};
+            char msg[512]; char types[4] = {'s', TYPE[a], TYPE[a], 0};
             rtosc_arg_t args[3]; args[0].s = ADDR[a]; memcpy(&args[1].i, &oldv, 4); memcpy(&args[2].i, &newv, 4);
             rtosc_amessage(msg, sizeof msg, "/undo_change", types, args);
             I.h.recordEvent(msg);
@@ -156,9 +156,47 @@ struct Sys {
 // the canon contains the model's relative ages, and any disagreement between model and object
 // shows up as a size/pos/content violation at the record that observes it).
 
+// ---- long addresses: one fixed scenario (merge, no merge, merge across an event of another address, undo all, redo all) for an
+// address of every length 1..247 (the longest whose undo message fits the library's 256-byte message buffer)
+static void long_addresses()
+{
+    if(vp::ctx().shard != 0) return;
+    for(int A = 1; A <= 247; ++A) {
+        std::string cid = "long|A" + std::to_string(A);
+        if(!vp::want(cid)) continue;
+        vp::current_case() = cid; vp::state(); vp::eval(); vp::nontrivial(vp::fnv(cid));
+        std::string addr(A, 'p'); addr[0] = '/'; for(int k = 1; k < A; k += 9) addr[k] = (char)('a' + (k / 9) % 26);
+        rtosc::UndoHistory h;
+        std::vector<std::pair<std::string, int>> got;
+        h.setCallback([&](const char *m) { ref::Decoded d = ref::decode((const uint8_t *)m, rtosc_message_length(m, 512)); if(d.ok && d.args.size() == 1 && d.types == "i") got.push_back({d.addr, (int)d.args[0].u32}); else got.push_back({"<undecodable>", 0}); });
+        time_t now = 2000000; vp::g_now = now;
+        auto rec = [&](const std::string &a, int o, int n) { char msg[512]; rtosc_message(msg, sizeof msg, "/undo_change", "sii", a.c_str(), o, n); vp::g_now = now; h.recordEvent(msg); vp::transition(); };
+        const std::string cls = A >= 200 ? "address>=200" : A >= 100 ? "address>=100" : "address<100";
+        auto expect_size = [&](size_t n, size_t pos, const char *step) { if(h.size() != n || h.getPos() != pos) { vp::violation(std::string("record|") + step + "|" + cls, cid, std::string(step) + " with an address of " + std::to_string(A) + " characters: size=" + std::to_string(h.size()) + " pos=" + std::to_string(h.getPos()) + ", expected " + std::to_string(n) + "/" + std::to_string(pos)); return false; } return true; };
+        bool ok = true;
+        rec(addr, 0, 1); ok = ok && expect_size(1, 1, "first-record");
+        now += 1; rec(addr, 1, 2); ok = ok && expect_size(1, 1, "merge-missed");
+        now += 3; rec(addr, 2, 3); ok = ok && expect_size(2, 2, "merged-or-dropped-unexpectedly");
+        rec("/z", 5, 6); ok = ok && expect_size(3, 3, "other-address");
+        now += 1; rec(addr, 3, 4); ok = ok && expect_size(3, 3, "merge-missed");
+        if(ok) {
+            got.clear(); vp::g_now = now; h.seekHistory(-3); vp::transition();
+            std::vector<std::pair<std::string, int>> want = {{"/z", 5}, {addr, 2}, {addr, 0}};
+            if(got != want) vp::violation("seek-undo|message-content|" + cls, cid, "undo of 3 events with an address of " + std::to_string(A) + " characters emitted " + std::to_string(got.size()) + " messages" + (got.size() == 3 ? " with values " + std::to_string(got[0].second) + "," + std::to_string(got[1].second) + "," + std::to_string(got[2].second) + " (expected 5,2,0)" : ""));
+            got.clear(); h.seekHistory(+3); vp::transition();
+            want = {{addr, 2}, {addr, 4}, {"/z", 6}};
+            if(got != want) vp::violation("seek-redo|message-content|" + cls, cid, "redo of 3 events with an address of " + std::to_string(A) + " characters emitted " + std::to_string(got.size()) + " messages");
+        }
+        vp::outcome("long-address:" + cls);
+        vp::trace();
+    }
+    vp::bound("long_addresses", "address of every length 1..247: record, merge within 1 s, no merge after 3 s, merge across an event of another address, undo 3, redo 3");
+}
+
 int main(int argc, char **argv)
 {
     vp::init(argc, argv, "C15");
+    long_addresses();
     bfs::Engine<Sys> E;
     const bool T = vp::thorough();
     E.max_depth = T ? 7 : 5;
@@ -179,6 +217,16 @@ int main(int argc, char **argv)
         E.roots.push_back(h);
         h.push_back((uint16_t)(OP_SEEK + 0)); E.roots.push_back(h);      // and with the older event undone
     }
+    // long drags: one address re-recorded every 2 s (every 1 s) 16..30 times - each record merges into the same event, whose stamp
+    // keeps moving - next to an event of another address that was recorded once at the start and grows old
+    int n_drag = 0;
+    for(int x = 0; x < 3; ++x) for(int y = 0; y < 3; ++y) if(x != y) for(int n : {16, 17, 30}) for(int gap = 1; gap <= 2; ++gap) {
+        if((n == 30) != (gap == 1) && n != 17) continue;      // 16x2s, 17x1s, 17x2s, 30x1s
+        bfs::Hist h = {(uint16_t)(OP_REC + x), (uint16_t)(OP_REC + y)};
+        for(int k = 0; k < n; ++k) { for(int g = 0; g < gap; ++g) h.push_back((uint16_t)OP_TICK); h.push_back((uint16_t)(OP_REC + x)); }
+        E.roots.push_back(h); ++n_drag;
+    }
+    vp::bound("drag_roots", std::to_string(n_drag) + " states: rec(x) rec(y) then 16..30 x (tick 1-2 s, rec(x)) for every pair of addresses");
     vp::bound("alphabet", "rec(/a:i | /b/long/address:f | /c:c) with old=current value, new=next of a 3-cycle; seek(-1,+1,-2,+3,-25,+25); tick(1s,3s)");
     vp::bound("roots", "initial + " + std::to_string(E.roots.size()) + " states: k in {17,19,20,21} unmergeable records then 0..k undo steps; 12 states with a merged (re-stamped) event in front of an older event of another address");
     (void)root_depth;
